@@ -59,7 +59,8 @@ class SelectPoller(Poller):
                 event |= POLL_EVENT_TYPE.WRITE
             if descr in xlist:
                 event |= POLL_EVENT_TYPE.ERROR
-            self.__descrToCallbacks[descr](descr, event)
+            if descr in self.__descrToCallbacks:
+                self.__descrToCallbacks[descr](descr, event)
 
 
 class PollPoller(Poller):
